@@ -36,7 +36,8 @@ from pytools.py_codegen import (
 from dagrt.codegen.codegen_base import StructuredCodeGenerator
 from dagrt.codegen.expressions import PythonExpressionMapper
 from dagrt.codegen.utils import (
-    KeyToUniqueNameMap, exec_in_new_namespace, wrap_line_base)
+    KeyToUniqueNameMap, exec_in_new_namespace, split_outside_quotes,
+    wrap_line_base)
 from dagrt.utils import is_state_variable
 
 
@@ -46,7 +47,8 @@ def pad_python(line, width):
     return line
 
 
-wrap_line = partial(wrap_line_base, pad_func=pad_python)
+wrap_line = partial(wrap_line_base, pad_func=pad_python,
+                    lex_func=partial(split_outside_quotes, escape="\\"))
 
 
 class StepperInterface(ABC):
